@@ -15,7 +15,7 @@ CONSTANTS MaxLen,     \* longest stream
 VARIABLES stream
 vars == <<stream>>
 
-Alph == IF Alpha = "safe" THEN SafeAlphabet ELSE Alphabet
+Alph == CASE Alpha = "safe" -> SafeAlphabet [] Alpha = "mini" -> MiniAlphabet [] OTHER -> Alphabet
 
 Init == stream = <<>>
 Next == Len(stream) < MaxLen /\ \E el \in Alph : stream' = Append(stream, el)
